@@ -101,6 +101,16 @@ NestMix(k) == IF k = 0 THEN Num(TI8, 7)
                      [] OTHER -> LET x == NestMix(k - 1) IN [t |-> TMap, kt |-> TI8, vt |-> x.t, m |-> << [k |-> Num(TI8, 1), v |-> x] >>]
 DeepForeign == { [id |-> 90, v |-> NestS(d)] : d \in {63, 64, 65, 66, 130} } \cup { [id |-> 91, v |-> NestL(d)] : d \in {63, 64, 65, 66, 130} }
                \cup { [id |-> 92, v |-> NestMix(d)] : d \in {64, 65, 66, 67, 131} }
+\* unknown fields of the container shapes that skipping treats specially (fixed-width keys or values, variable-width partners)
+M1(kt, vt, k, x) == [t |-> TMap, kt |-> kt, vt |-> vt, m |-> << [k |-> k, v |-> x] >>]
+I64v == Limb(TI64, <<0, 0, 0, 9>>)
+DblV == Limb(TDouble, <<16368, 0, 0, 0>>)
+WideForeign == { [id |-> 93, v |-> M1(TI64, TBinary, I64v, Bin(<<120, 121>>))], [id |-> 93, v |-> M1(TDouble, TBinary, DblV, Bin(<<>>))],
+                 [id |-> 93, v |-> M1(TBinary, TI64, Bin(<<107>>), I64v)], [id |-> 93, v |-> M1(TI64, TI64, I64v, I64v)],
+                 [id |-> 93, v |-> M1(TI8, TBinary, Num(TI8, 1), Bin(<<1, 2, 3>>))], [id |-> 93, v |-> M1(TI32, TBool, Num(TI32, 1), Num(TBool, 1))],
+                 [id |-> 93, v |-> [t |-> TList, et |-> TMap, e |-> << M1(TI64, TBinary, I64v, Bin(<<120>>)) >>]],
+                 [id |-> 93, v |-> [t |-> TStruct, f |-> << [id |-> 1, v |-> M1(TI64, TBinary, I64v, Bin(<<120>>))] >>]],
+                 [id |-> 93, v |-> [t |-> TSet, et |-> TI64, e |-> << I64v >>]], [id |-> 93, v |-> [t |-> TList, et |-> TDouble, e |-> << DblV, DblV >>]] }
 W0 == ToWireRef(WSchema, Ref(wd.name), v)
 \* (evolution and injection are independent concerns: injection is explored on the unevolved writer)
 DoInject == /\ Ready /\ inj = <<>> /\ wd.name = "Rd" /\ Len(wd.fields) >= 5 /\ SubSeq(wd.fields, 1, 5) = RdFields
@@ -108,7 +118,7 @@ DoInject == /\ Ready /\ inj = <<>> /\ wd.name = "Rd" /\ Len(wd.fields) >= 5 /\ S
             /\ UNCHANGED <<wd, v, stage>>
 \* deep values are injected at the top level only (first / last position) of the unevolved writer's full value
 DoInjectDeep == /\ Ready /\ inj = <<>> /\ wd.name = "Rd" /\ Len(wd.fields) = 5 /\ SubSeq(wd.fields, 1, 5) = RdFields /\ Len(W0.f) >= 3
-                /\ \E k \in {0, Len(W0.f)}, fx \in DeepForeign : inj' = << <<>>, k, fx >>
+                /\ \E k \in {0, Len(W0.f)}, fx \in DeepForeign \cup WideForeign : inj' = << <<>>, k, fx >>
                 /\ UNCHANGED <<wd, v, stage>>
 Next == ChooseField \/ ChooseExtras \/ ChooseValue \/ DoInject \/ DoInjectDeep
 Spec == Init /\ [][Next]_vars
